@@ -109,7 +109,8 @@ def run(rep, tier, seed):
         cases.append({"k": f"c03ent-{v}", "xml": ent, "cfg": dict(textc.CONFIGS[(v * 3) % len(textc.CONFIGS)]),
                       "case": {"fam": "root", "prolog": "entity-subset"}, "mode": "root"})
     # namespaced subtree embedded in an svgdx document
-    sub = f'<svg {NS} width="5" height="5"><rect xy="^|h" wh="2" text="a &amp;lt; b" data-q="x &amp; &quot;y&quot;"/><text>1 &lt; 2 &amp;amp; 3</text><!-- c --></svg>'
+    sub = (f'<svg {NS} width="5" height="5" xy="^|h 2" wh="$nosuch" aria-label="{{{{title}}}}" text="t" class="d-fill-red  x" data-e="{{{{1 +}}}}">'
+           '<rect xy="^|h" wh="2" text="a &amp;lt; b" data-q="x &amp; &quot;y&quot;"/><text>1 &lt; 2 &amp;amp; 3</text><!-- c --></svg>')
     for pos, xml in (("first", f"<svg>{sub}<rect wh=\"3\"/></svg>"), ("later", f"<svg><rect wh=\"3\"/>{sub}</svg>"),
                      ("in-g", f"<svg><rect wh=\"3\"/><g>{sub}</g></svg>"), ("in-defs", f"<svg><rect wh=\"3\"/><defs>{sub}</defs></svg>")):
         for v in range(2):
